@@ -25,11 +25,13 @@ type c02Cand struct {
 	// Late, if set, builds the cookie right after the handshake
 	IdleMs int           `json:"idle_ms,omitempty"`
 	Late   func() string `json:"-"`
+	// HSCaps, if non-zero, are the capability bits of the handshake (default: the server's)
+	HSCaps uint16 `json:"handshake_caps,omitempty"`
 }
 
 func CheckC02(l *Lab, verifDir string) int {
 	rep := NewReport("C02", l.Tier, l.Seed, "exploration", verifDir)
-	rep.Rule = "candidate cookies are presented to the real binary (handshake + tunnel-create, status observed): tokens minted by the real /connect flow, every single-character substitution (all 63 alternatives at sampled positions; thorough: every position) and single-bit flip of their three segments, truncations, empty / junk strings, re-signing under other algorithms (none, HS384, HS512, RS256-as-HMAC) and other keys (empty, session key, JWKS modulus, near keys), header alg lying about the MAC, payloads re-signed under the right key with iss changed or missing and exp at -1h/-180s/-30s/+1h/missing, nbf in the future, nested and JSON-serialised JWS, duplicated segments; the right-key rejects again after bursts of valid presentations (what one cookie check leaves behind must not complete the next cookie); a cookie that leaves the leeway while the connection idles between handshake and tunnel-create; crossed with IdP conditions (valid, unknown token, revoked after a successful use, userinfo 500, connection reset). Oracle (own HMAC/base64/JSON code): accepted => semantically valid; fresh minted => accepted; rejected => cookie-access-denied status and the tunnel ends; minted exp <= receipt time + 300 s. non-trivial = the candidate reached the gateway and a tunnel-create response or end was observed; distinct = candidate class x mutation x verdict"
+	rep.Rule = "candidate cookies are presented to the real binary (handshake + tunnel-create, status observed): tokens minted by the real /connect flow, every single-character substitution (all 63 alternatives at sampled positions; thorough: every position) and single-bit flip of their three segments, truncations, empty / junk strings, re-signing under other algorithms (none, HS384, HS512, RS256-as-HMAC) and other keys (empty, session key, JWKS modulus, near keys), header alg lying about the MAC, payloads re-signed under the right key with iss changed or missing and exp at -1h/-180s/-30s/+1h/missing, nbf in the future, nested and JSON-serialised JWS, duplicated segments; the right-key rejects again after bursts of valid presentations (what one cookie check leaves behind must not complete the next cookie); a cookie that leaves the leeway while the connection idles between handshake and tunnel-create; a second configuration with the smart-card capability enabled where handshakes negotiate SC only / PAA only / both before bad and minted cookies are presented; crossed with IdP conditions (valid, unknown token, revoked after a successful use, userinfo 500, connection reset). Oracle (own HMAC/base64/JSON code): accepted => semantically valid; fresh minted => accepted; rejected => cookie-access-denied status and the tunnel ends; minted exp <= receipt time + 300 s. non-trivial = the candidate reached the gateway and a tunnel-create response or end was observed; distinct = candidate class x mutation x verdict"
 	rep.Assume("the harness knows the configured signing key; 'valid but unusual' candidates (no exp, nbf in the future, mutants decoding to identical bytes, -30 s inside the leeway) are recorded, not judged")
 	f, err := l.NewFixture(FixtureOpts{Kind: "openid"})
 	if err != nil {
@@ -245,6 +247,27 @@ func CheckC02(l *Lab, verifDir string) int {
 		hw.Wait()
 	}
 
+	// ---- smart-card capability enabled next to cookie authentication: whatever authentication
+	// bits the handshake negotiated, tunnel creation needs an acceptable cookie
+	if fs, err := l.NewFixture(FixtureOpts{Kind: "openid", IdP: f.IdP, Mutate: func(c *GWConfig) { c.SmartCardAuth = true }}); err != nil {
+		rep.Inconclusive("smart-card fixture: " + err.Error())
+	} else {
+		fs.M.ServerCaps = 3
+		goodSC := ""
+		if file, _, err := NewBrowser(fs.GW, "").Login("scuser", "host="+fs.H1.Addr()); err == nil {
+			goodSC = file.Settings["gatewayaccesstoken"]
+		}
+		for _, caps := range []uint16{1, 2, 3, 5, 7} {
+			for i, ck := range []string{"", "junk", "a.b.c", SignHS("HS256", "HS256", []byte("another-key-another-key-another-k"), nil, claims())} {
+				c02Present(rep, fs, c02Cand{Name: fmt.Sprintf("smart-card config, handshake caps %#x, bad cookie %d", caps, i), Class: "smartcard-config", Cookie: ck, Want: "reject", HSCaps: caps})
+			}
+			if goodSC != "" && caps <= 3 {
+				c02Present(rep, fs, c02Cand{Name: fmt.Sprintf("smart-card config, handshake caps %#x, minted cookie", caps), Class: "smartcard-config", Cookie: goodSC, Want: "accept", HSCaps: caps})
+			}
+		}
+		fs.Close()
+	}
+
 	// ---- IdP conditions (sequential: they change the IdP)
 	for round := 0; round < l.Pick(3, 20); round++ {
 		br := NewBrowser(f.GW, "")
@@ -293,7 +316,11 @@ func c02Present(rep *Report, f *Fixture, c c02Cand) {
 	}
 	defer t.Close()
 	W := 10 * time.Second
-	t.Send(f.SymHS(true).Wire)
+	if c.HSCaps != 0 {
+		t.Send(HandshakeReq(1, 0, 0, c.HSCaps))
+	} else {
+		t.Send(f.SymHS(true).Wire)
+	}
 	if n, _ := t.WaitPackets(1, W); n < 1 {
 		rep.Inconclusive("handshake not answered")
 		rep.Eval("")
